@@ -497,16 +497,16 @@ static void aliasing() {
 // A Sha256 object is plain data (8 state words, count, block buffer) and hash()/hmac() work on a local object: hashers that are not shared between threads
 // are independent, so every result computed while other threads hash must equal the result of the same call computed while the process was single-threaded.
 // Case = 2..8 threads (case index mod 7), each with 4..10 seeded work items of its own (one-shot hash(), a long-lived hasher of its own fed in 1..3 pieces with
-// reset() in between, a fresh hasher per call fed in up to 6 pieces, hmac(), the RFC 2104 construction spelled out with two hashers of its own) and 30..120 rounds
-// over them. Phase 1 (main thread only): the expected value of every item through one-shot hash()/hmac(), recorded for the offline hashlib/hmac comparison, and
-// one control round of every thread's work list run serially. Phase 2: all threads are released by one barrier.
+// reset() in between, a fresh hasher per call fed in up to 6 pieces, hmac(), the RFC 2104 construction spelled out with two hashers of its own) and as many rounds
+// over them as make 6000..20000 compressed blocks per thread (equal work, so that all threads hash for the whole duration of the case). Phase 1 (main thread only): the expected value of every item through one-shot hash()/hmac(), recorded for the offline hashlib/hmac comparison, and
+// two control rounds of every thread's work list run serially. Phase 2: all threads are released by one barrier.
 // Threads touch only their own MtThread (plus relaxed-atomic progress counters); vh::cnt/setItem/fail are called by the main thread after joining.
 enum { MT_HASH = 0, MT_REUSED = 1, MT_FRESH = 2, MT_HMAC = 3, MT_HMAC_PARTS = 4, MT_KINDS = 5, MT_MAXT = 8 };
 static const char* const mtName[MT_KINDS] = { "hash()", "own reused hasher, chunked", "fresh hasher per call, chunked", "hmac()", "RFC 2104 construction from two own hashers" };
 static const char* const mtKey[MT_KINDS] = { "Sha256.hash/other-threads-hashing/digest", "Sha256.update/other-threads-hashing/reused-hasher/digest", "Sha256.update/other-threads-hashing/fresh-hasher/digest",
                                               "Sha256.hmac/other-threads-hashing/mac", "Sha256.update/other-threads-hashing/hmac-construction/mac" };
 static const char* const mtCtlKey[MT_KINDS] = { "Sha256.hash/mt-control-single-threaded/digest", "Sha256.update/mt-control-single-threaded/reused-hasher/digest", "Sha256.update/mt-control-single-threaded/fresh-hasher/digest",
-                                                 "Sha256.hmac/mt-control-single-threaded/mac", "Sha256.update/mt-control-single-threaded/hmac-construction/mac" };
+                                                 "Sha256.hmac/mt-control-single-threaded/mac", "Sha256.hmac+update/mt-control-single-threaded/hmac()-differs-from-RFC-2104-construction-from-own-hashers/mac" };
 static const char* const mtCounter[MT_KINDS] = { "mt_static_hash_digests", "mt_reused_hasher_digests", "mt_fresh_hasher_digests", "mt_static_hmacs", "mt_hmacs_from_own_hashers" };
 
 struct MtItem { int kind; Exact msg, key; u8 want[32]; MtItem() : kind(0) {} };
@@ -522,7 +522,7 @@ static void mtCompute(MtThread& t, Hasher& own, Rng& r, const MtItem& it, int ro
   switch (it.kind) {
   case MT_HASH: Sha256::hash(m, L, out); ++t.updates; break;
   case MT_REUSED: {
-    if ((round & 7) == 3) { u8 g[70]; size_t k = 1 + (size_t)r.below(70); for (size_t i = 0; i < k; ++i) g[i] = (u8)r.next(); own.h->update(g, k); own.h->reset(); ++t.updates; }   // abandon a message half-way
+    if ((round & 3) == 1) { u8 g[70]; size_t k = 1 + (size_t)r.below(70); for (size_t i = 0; i < k; ++i) g[i] = (u8)r.next(); own.h->update(g, k); own.h->reset(); ++t.updates; }   // abandon a message half-way
     size_t a = (size_t)r.below(L + 1), b = (size_t)r.below(L + 1); if (a > b) { size_t x = a; a = b; b = x; } int pieces = 1 + (int)r.below(3);
     if (pieces == 1) { own.h->update(m, L); } else if (pieces == 2) { own.h->update(m, a); own.h->update(m + a, L - a); } else { own.h->update(m, a); own.h->update(m + a, b - a); own.h->update(m + b, L - b); }
     t.updates += pieces; own.h->finalize(out); break; }
@@ -595,7 +595,7 @@ static void mtReport(MtThread* th, int nt, bool control) {
     else m.addf("thread %d of %d, round %d, item %d (%s, message of %lu bytes", t, nt, T.badRound[k], T.badItem[k], mtName[k], (unsigned long)it.msg.n);
     if (k >= MT_HMAC) m.addf(", key of %lu bytes", (unsigned long)it.key.n);
     m.addf("): result %s, but the %s of the same input computed before the threads were started is %s; %ld of the %ld results %s were wrong", a, k >= MT_HMAC ? "MAC" : "digest", b, wrongAll, resultsAll,
-           control ? "of the control round" : "computed while the other threads were hashing");
+           control ? "of the control rounds" : "computed while the other threads were hashing");
     mtViolation(control ? mtCtlKey[k] : mtKey[k], m.c()); return;
   }
 }
@@ -604,15 +604,15 @@ static void multiThreaded() {
   for (long idx = opts.start; idx < opts.start + opts.cases && !g_mtStop; ++idx) {
     if (!mine(idx)) continue;
     beginCase(idx);
-    Rng r(opts.seed, 1707, (u64)idx);
-    int nt = 2 + (int)(idx % 7), rounds = (int)r.range(30, 120);
-    hist.addf("# %d threads hashing at the same time, %d rounds each over the thread's own work items; expected values computed beforehand by the main thread\n", nt, rounds);
-    MtThread th[MT_MAXT]; pthread_barrier_t bar; u64 fp = mix((u64)nt, (u64)rounds); long nitemsAll = 0;
+    Rng r(opts.seed, strcmp(opts.mode, "mt-tsan") ? 1707 : 1708, (u64)idx);   // the ThreadSanitizer job runs other inputs than the ASan job
+    int nt = 2 + (int)(idx % 7); long budget = r.range(6000, 20000);   // 64-byte blocks compressed by every thread
+    hist.addf("# %d threads hashing at the same time, each in rounds over its own work items until about %ld blocks are compressed; expected values computed beforehand by the main thread\n", nt, budget);
+    MtThread th[MT_MAXT]; pthread_barrier_t bar; u64 fp = mix((u64)nt, (u64)budget); long nitemsAll = 0;
     // ---- phase 1: work items and their expected values (single-threaded), recorded for the offline comparison
     for (int t = 0; t < nt; ++t) {
-      MtThread& T = th[t]; T.id = t; T.nthreads = nt; T.rounds = rounds; T.nitems = (int)r.range(4, 10); T.rseed = r.next(); T.bar = &bar; T.all = th;
+      MtThread& T = th[t]; T.id = t; T.nthreads = nt; T.rounds = 0; T.nitems = (int)r.range(4, 10); T.rseed = r.next(); T.bar = &bar; T.all = th;
       T.items = (MtItem**)malloc(sizeof(MtItem*) * (size_t)T.nitems);
-      hist.addf("thread %d:", t);
+      hist.addf("thread %d:", t); long blocksPerRound = 0;
       for (int i = 0; i < T.nitems; ++i) {
         MtItem* it = new MtItem; T.items[i] = it; it->kind = i < MT_KINDS && t < 2 ? (i + t) % MT_KINDS : (int)r.below(MT_KINDS);   // the first two threads have every kind
         size_t L = mtLen(r); Dig want;
@@ -633,13 +633,15 @@ static void multiThreaded() {
           addHex(rl, want.d, 32); rl.add("\n"); rec("%s", rl.c()); cnt("mt_expected_digests_recorded");
           hist.addf(" %s(%lu)", it->kind == MT_HASH ? "hash" : it->kind == MT_REUSED ? "reused-hasher" : "fresh-hasher", (unsigned long)L);
         }
+        blocksPerRound += (long)(L / 64) + 2 + (it->kind >= MT_HMAC ? 4 + (long)(it->key.n / 64) : 0);
         memcpy(it->want, want.d, 32); fp = mix(fp, mix((u64)it->kind * 1000003 + L, *(u64*)want.d)); cnt("bytes_in_messages", (long)L);
       }
-      hist.add("\n"); nitemsAll += T.nitems;
+      long rounds = budget / blocksPerRound; T.rounds = rounds < 4 ? 4 : rounds > 400 ? 400 : (int)rounds;
+      hist.addf(" x %d rounds\n", T.rounds); nitemsAll += T.nitems; fp = mix(fp, (u64)T.rounds);
     }
-    // ---- control: one round of every work list, serially in the main thread (a defect that needs no second thread must not be reported as a threading defect)
+    // ---- control: two rounds of every work list, serially in the main thread (a defect that needs no second thread must not be reported as a threading defect)
     setctx("Sha256.update+hash+hmac/mt-control-single-threaded");
-    for (int t = 0; t < nt; ++t) { mtReset(th[t], true); int keep = th[t].rounds; th[t].rounds = 1; mtWorker(&th[t]); th[t].rounds = keep; for (int k = 0; k < MT_KINDS; ++k) cnt("mt_control_results_compared", th[t].results[k]); }
+    for (int t = 0; t < nt; ++t) { mtReset(th[t], true); int keep = th[t].rounds; th[t].rounds = 2; mtWorker(&th[t]);   /* round 1 takes the reset() path of the reused hasher */ th[t].rounds = keep; for (int k = 0; k < MT_KINDS; ++k) cnt("mt_control_results_compared", th[t].results[k]); }
     mtReport(th, nt, true);
     // ---- phase 2: the same work lists in nt threads released together
     if (!g_mtStop) {
@@ -653,7 +655,7 @@ static void multiThreaded() {
       long overlap = 0, all = 0;
       for (int t = 0; t < nt; ++t) {
         for (int k = 0; k < MT_KINDS; ++k) { cnt(mtCounter[k], th[t].results[k]); cnt("mt_results_compared", th[t].results[k]); all += th[t].results[k]; }
-        cnt("mt_updates", th[t].updates); cnt("mt_thread_rounds", rounds); overlap += th[t].overlapRounds;
+        cnt("mt_updates", th[t].updates); cnt("mt_thread_rounds", th[t].rounds); overlap += th[t].overlapRounds;
       }
       cnt("mt_thread_rounds_during_which_another_thread_advanced", overlap); if (overlap) cnt("mt_cases_with_observed_overlap");
       cnt("mt_cases"); cnt("mt_threads_run", nt); cnt("mt_work_items", nitemsAll); statMax("mt_max_threads", nt); statMax("mt_max_results_per_case", all);
